@@ -966,15 +966,25 @@ Proof.
       rewrite (irel_vals _ _ Hrel), (Forall2_len _ _ _ Hrel). reflexivity.
     + destruct E as (ext & -> & Hsec). fin_err.
   - (* CollectExactly *)
-    match type of H with context [drive ?a ?b ?c ?d ?e ?f ?g ?h ?pa 0 [] s] =>
-      destruct (drive a b c d e f g h pa 0 [] s) as [[[r0 acc'] fl] s2] eqn:E end.
-    eapply (drive_refines _ _ IH s) with (sacc := []) (sacce := []) in E; eauto; [|now rewrite app_nil_r].
-    destruct r0; try (destruct fl; trivial_res H).
-    + destruct E as (sitems & ems & -> & Hrel & Hsec & Hu). destruct fl; cbn [q_exact_noalt no_quirks] in H; inv_pair H.
-      * destruct (fail_here_refines [pSomethingElse] s2) as (Ha & Hs2). exists ems. rewrite Ha, Hs2. split; [reflexivity|exact Hsec].
-      * do 3 eexists. split; [reflexivity|].
-        repeat split; auto. destruct m; [|reflexivity]. cbn. rewrite (irel_vals _ _ Hrel). reflexivity.
-    + destruct E as (ext & -> & Hsec). destruct fl; inv_pair H; fin_err.
+    destruct n0 as [|k0]; [destruct (its_fail (mk_iter i ctx)) as [e0|]; [exact (IH _ _ _ _ _ _ H Hinv)|]|].
+    + match type of H with context [drive ?a ?b ?c ?d ?e ?f ?g ?h ?pa 0 [] s] =>
+        destruct (drive a b c d e f g h pa 0 [] s) as [[[r0 acc'] fl] s2] eqn:E end.
+      eapply (drive_refines _ _ IH s) with (sacc := []) (sacce := []) in E; eauto; [|now rewrite app_nil_r].
+      destruct r0; try (destruct fl; trivial_res H).
+      * destruct E as (sitems & ems & -> & Hrel & Hsec & Hu). destruct fl; cbn [q_exact_noalt no_quirks] in H; inv_pair H.
+        -- destruct (fail_here_refines [pSomethingElse] s2) as (Ha & Hs2). exists ems. rewrite Ha, Hs2. split; [reflexivity|exact Hsec].
+        -- do 3 eexists. split; [reflexivity|].
+          repeat split; auto. destruct m; [|reflexivity]. cbn. rewrite (irel_vals _ _ Hrel). reflexivity.
+      * destruct E as (ext & -> & Hsec). destruct fl; inv_pair H; fin_err.
+    + match type of H with context [drive ?a ?b ?c ?d ?e ?f ?g ?h ?pa 0 [] s] =>
+        destruct (drive a b c d e f g h pa 0 [] s) as [[[r0 acc'] fl] s2] eqn:E end.
+      eapply (drive_refines _ _ IH s) with (sacc := []) (sacce := []) in E; eauto; [|now rewrite app_nil_r].
+      destruct r0; try (destruct fl; trivial_res H).
+      * destruct E as (sitems & ems & -> & Hrel & Hsec & Hu). destruct fl; cbn [q_exact_noalt no_quirks] in H; inv_pair H.
+        -- destruct (fail_here_refines [pSomethingElse] s2) as (Ha & Hs2). exists ems. rewrite Ha, Hs2. split; [reflexivity|exact Hsec].
+        -- do 3 eexists. split; [reflexivity|].
+          repeat split; auto. destruct m; [|reflexivity]. cbn. rewrite (irel_vals _ _ Hrel). reflexivity.
+      * destruct E as (ext & -> & Hsec). destruct fl; inv_pair H; fin_err.
   - (* Foldl *)
     destruct (go n m g ctx s) as [r1 s2] eqn:E1. use IH E1.
     destruct r1; try trivial_res H.
